@@ -1,12 +1,12 @@
 SPECIFICATION Spec
 CONSTANTS
   Roots = {1, 2, 3}
-  Slots = {0, 1, 2, 3, 5, 6}
-  Nows = {0, 3, 5, 7, 9}
+  Slots = {0, 2, 3}
+  Nows = {0, 3, 5, 7}
   SlotsPerEpoch = 2
   NoRoot = 0
-  HasPayload = {1, 2}
-  Deviation = "none"
+  HasPayload = {1}
+  Deviation = "ParentAtPrevSlot"
   Retention = 1
 INVARIANTS ExecHeadSound TypeOK MapSound LookupRight ErrorNotSlot
 PROPERTY CleanOnlyOld
